@@ -112,24 +112,22 @@ func findCountedLoop(phi *ssa.Phi) (*countedLoop, string) {
 func rulesCanonical(c *Ctx, r *Report) {
 	outer := c.fn("sequtil", "CanonicalSubsequences")
 	where := "sequtil.CanonicalSubsequences$1"
-	if outer == nil || len(outer.AnonFuncs) != 1 {
-		r.undecided("CS", where, "anchor", "", "CanonicalSubsequences with a single iterator literal not found")
+	ib := c.iterBody(outer)
+	if ib == nil {
+		r.undecided("CS", where, "anchor", "", "CanonicalSubsequences with a single iterator literal (or a method value) not found")
 		return
 	}
-	lit := outer.AnonFuncs[0]
+	lit := ib.lit
 	r.analysed(where)
-	// the literal's body, or the function it hands its whole work to
-	f, s, paramIn := c.delegatedBody(lit)
+	// the literal's body, the function it hands its whole work to, or the method whose value is returned
+	f, s := ib.f, ib.s
 	if f != lit {
 		r.analysed(fname(f))
 	}
 	// yield call
 	var ycall *ssa.Call
 	ny := 0
-	var yieldV ssa.Value
-	if len(lit.Params) == 1 {
-		yieldV = paramIn(lit.Params[0])
-	}
+	yieldV := ib.yield
 	instrs(f, func(in ssa.Instruction) {
 		if cl, ok := in.(*ssa.Call); ok && yieldV != nil && cl.Call.Value == yieldV {
 			ycall = cl
@@ -225,7 +223,7 @@ func rulesCanonical(c *Ctx, r *Report) {
 	}
 	// k: the outer function's second parameter, as the literal (or the function it delegates to) sees it
 	kAtom := "^P1"
-	if len(lit.FreeVars) > 0 {
+	if lit != nil && len(lit.FreeVars) > 0 {
 		ls := newSymb(lit)
 		kAtom = ls.expr(lit.FreeVars[freeVarIndex(lit, "k")]).String()
 		if ld := loadOfFreeVar(lit, "k"); ld != nil {
